@@ -186,9 +186,13 @@ half_plus_q_regex = re.compile(
     (?P<half_aliquot>[NESW]½)       # Which aliquot half.
     
     (
-        \s*
-        (?P<of_the>\s*of(\s*the)?)?    # 'of' or 'of the'
-        \s*
+        (
+            # 'of' or 'of the' (after which the text may wrap)
+            [^\S\r\n]*(?P<of_the>of(\s*the)?)\s*
+            |
+            # or whitespace on the same line only
+            [^\S\r\n]*
+        )
         
         (?P<quarter_aliquot_rightmost>
             
